@@ -7,7 +7,7 @@ open Lean LiquidVerif.MemoHist
 * `["c17memo", cap, [key…]]` with key = `[pykey…]` → `[creator…]`: for each call of the history, the index of the
   call whose computed value it returns (its own index on a miss, an earlier one on a hit).
   pykey: `null | bool | int | {"f": int} | "text" | {"m": "text"} | {"o": id} | {"dt": [instant, offset]}`
-* `["c17eq", key, key]` → bool (`keyEq`)
+* `["c17eq", key, key]` → `[keyEq, lruKeyEq]`
 -/
 namespace Driver.C17
 
@@ -31,7 +31,7 @@ def keyOf (j : Json) : Option (List PyKey) := (asArr? j).bind (mapM? pykeyOf)
 def simulate (cap : Nat) : List (List PyKey × Nat) → Nat → List (List PyKey) → List Nat
   | _, _, [] => []
   | m, i, k :: ks =>
-    let r := call keyEq (fun _ => i) cap m k
+    let r := call lruKeyEq (fun _ => i) cap m k
     r.1 :: simulate cap r.2 (i + 1) ks
 
 def handleMemo (args : List Json) : Json :=
@@ -46,7 +46,7 @@ def handleEq (args : List Json) : Json :=
   match args with
   | [a, b] =>
     match keyOf a, keyOf b with
-    | some x, some y => Json.bool (keyEq x y)
+    | some x, some y => jarr [Json.bool (keyEq x y), Json.bool (lruKeyEq x y)]
     | _, _ => jerr "bad-case"
   | _ => jerr "bad-args"
 
